@@ -1,6 +1,6 @@
 (** * C14 — vectorised expression evaluation equals scalar SQL semantics.
     Only statements, each closed by [exact], with its assumptions printed. *)
-From RL Require Import Model.Arr Model.Expr Proofs.ArrP.
+From RL Require Import Model.Arr Model.Expr Proofs.ArrP Proofs.ArrRowP.
 Open Scope Z_scope.
 
 (** three-valued logic, slot by slot, for ARBITRARY raw bits under NULL slots *)
@@ -33,6 +33,21 @@ Proof. exact veval_respects. Qed.
 Theorem equal_arrays_look_equal : forall a a', arr_eq a a' -> logical a = logical a'.
 Proof. exact logical_of_eq. Qed.
 
+(** row by row: row [i] of the batch result is what the same evaluator gives on the one-row batch made
+    of row [i] alone (also how the planner folds constants: one-element arrays through the same
+    kernels); hence a row's value depends neither on the batch length nor on its neighbours, and the
+    result has one slot per row of the batch *)
+Theorem batch_result_is_rowwise : forall e n cols r i, (i < n)%nat ->
+  veval e n cols = Ok r -> veval e 1 (map (row_of i) cols) = Ok (row_of i r).
+Proof. exact veval_row. Qed.
+Theorem row_value_depends_on_that_row_alone : forall e n n' cols cols' r r' i i', (i < n)%nat -> (i' < n')%nat ->
+  map (row_of i) cols = map (row_of i') cols' ->
+  veval e n cols = Ok r -> veval e n' cols' = Ok r' -> row_of i r = row_of i' r'.
+Proof. exact veval_row_alone. Qed.
+Theorem result_has_the_batch_length : forall e n cols r,
+  Forall (fun a => alen a = n) cols -> veval e n cols = Ok r -> alen r = n.
+Proof. exact veval_length. Qed.
+
 (** known finding KF_C14_overflow_under_null: whether the kernel PANICS does depend on raw bits *)
 Theorem overflow_under_null_refuted :
   let a := mk_arr TI32 [mk_slot true (RI 3)] in
@@ -51,4 +66,7 @@ Print Assumptions divisor_never_zero_after_safen.
 Print Assumptions case_kernel_3vl.
 Print Assumptions veval_raw_independent.
 Print Assumptions equal_arrays_look_equal.
+Print Assumptions batch_result_is_rowwise.
+Print Assumptions row_value_depends_on_that_row_alone.
+Print Assumptions result_has_the_batch_length.
 Print Assumptions overflow_under_null_refuted.
